@@ -21,6 +21,7 @@ ENGINE_CLASS = {
     "sobol": "SobolDeme",
     "custom": "RandomSearchDeme",
     "custom_ea": "TaggedEADeme",
+    "custom_ea2": "TaggedEADeme2",
 }
 
 
